@@ -29,6 +29,10 @@ pub struct ToCase {
     /// or `poll!` on another task would do) and completed under another (the awaiting task's)
     #[serde(default)]
     pub migrate: bool,
+    /// after its first poll the future is left alone until this many ms after the call (a busy task, a
+    /// `select!` that serves another branch) and only then awaited: what had happened first still decides
+    #[serde(default)]
+    pub late_repoll: Option<u64>,
 }
 
 #[derive(Default, Debug)]
@@ -150,7 +154,7 @@ impl Engine for ToEngine {
                 tokio::time::sleep(Duration::from_millis(c.first_poll_delay)).await;
             }
             let mut fut = Box::pin(fut);
-            let probed = if c.migrate {
+            let probed = if c.migrate || c.late_repoll.is_some() {
                 let w = futures_util::task::noop_waker();
                 let mut cx = std::task::Context::from_waker(&w);
                 match fut.as_mut().poll(&mut cx) {
@@ -165,7 +169,15 @@ impl Engine for ToEngine {
                     drop(fut);
                     Ok(r)
                 }
-                None => tokio::time::timeout(Duration::from_secs(3600), fut).await,
+                None => {
+                    if let Some(late) = c.late_repoll {
+                        let at = t0 + Duration::from_millis(issued + late);
+                        if at > Instant::now() {
+                            tokio::time::sleep_until(at).await;
+                        }
+                    }
+                    tokio::time::timeout(Duration::from_secs(3600), fut).await
+                }
             };
             let resolved = t0.elapsed().as_millis() as u64;
             *outer_done.lock().unwrap() = true;
@@ -196,6 +208,13 @@ impl Engine for ToEngine {
         }
         let inner_done = c.inner_at.map(|a| issued + a);
         let first_poll = issued + c.first_poll_delay;
+        // the future is polled at `first_poll` and then continuously from `second_poll` on: an event at E
+        // is seen at obs(E)
+        let second_poll = c.late_repoll.map(|l| (issued + l).max(first_poll)).unwrap_or(first_poll);
+        let obs = |e: u64| if e <= first_poll { first_poll } else { e.max(second_poll) };
+        if second_poll > first_poll {
+            rep.class("late-second-poll");
+        }
         let desc = format!("{c:?}: issued at {issued}, deadline {deadline}, inner completes at {inner_done:?}, first poll at {first_poll}; resolved {res:?} at {resolved}; inner {o:?}");
         match &res {
             None => rep.violate("C19/never-resolves", desc.clone()),
@@ -210,16 +229,16 @@ impl Engine for ToEngine {
                 if before {
                     if is_timeout {
                         rep.violate("C19/timeout-although-inner-resolved-first", desc.clone());
-                    } else if resolved != inner_done.unwrap().max(first_poll) {
+                    } else if resolved != obs(inner_done.unwrap()) {
                         rep.violate("C19/inner-result-delivered-late", desc.clone());
                     }
                 } else if after {
                     // inner already complete when first polled after the deadline: either answer is a tie
-                    let tie = inner_done.map(|t| t <= first_poll).unwrap_or(false);
+                    let tie = inner_done.map(|t| t <= obs(deadline)).unwrap_or(false);
                     if !is_timeout && !tie {
                         rep.violate("C19/no-timeout-after-deadline", desc.clone());
                     }
-                    if resolved > deadline.max(first_poll) {
+                    if resolved > obs(deadline) {
                         rep.violate("C19/resolved-later-than-deadline", desc.clone());
                     }
                     if is_timeout && resolved < deadline {
@@ -227,7 +246,7 @@ impl Engine for ToEngine {
                     }
                 } else {
                     // exact tie: either, but not later than the deadline
-                    if resolved > deadline.max(first_poll) {
+                    if resolved > obs(deadline) {
                         rep.violate("C19/resolved-later-than-deadline", desc.clone());
                     }
                     rep.class("exact-tie");
@@ -267,7 +286,7 @@ pub fn exhaustive() -> Vec<ToCase> {
             for inner_ok in [true, false] {
                 for first_poll_delay in [0u64, 5, 10, 25, 60] {
                     for ready_delay in [0u64, 7] {
-                        v.push(ToCase { dur, inner_at, inner_ok, first_poll_delay, ready_delay, migrate: v.len() % 3 == 1 });
+                        v.push(ToCase { dur, inner_at, inner_ok, first_poll_delay, ready_delay, migrate: v.len() % 3 == 1, late_repoll: if v.len() % 5 == 2 { Some([15u64, 40, 120][v.len() / 5 % 3]) } else { None } });
                     }
                 }
             }
@@ -285,8 +304,9 @@ pub fn strategy() -> impl proptest::strategy::Strategy<Value = ToCase> {
         prop_oneof![2 => Just(0u64), 1 => 1u64..250],
         prop_oneof![3 => Just(0u64), 1 => 1u64..30],
         prop_oneof![2 => Just(false), 1 => Just(true)],
+        prop_oneof![3 => Just(None), 1 => (1u64..400).prop_map(Some)],
     )
-        .prop_map(|(dur, inner_at, inner_ok, first_poll_delay, ready_delay, migrate)| ToCase {
+        .prop_map(|(dur, inner_at, inner_ok, first_poll_delay, ready_delay, migrate, late_repoll)| ToCase {
             dur,
             // with a practically unlimited duration only a completing inner future terminates the case
             inner_at: if dur >= u64::MAX - 1 { Some(inner_at.unwrap_or(7)) } else { inner_at },
@@ -294,5 +314,6 @@ pub fn strategy() -> impl proptest::strategy::Strategy<Value = ToCase> {
             first_poll_delay,
             ready_delay,
             migrate,
+            late_repoll,
         })
 }
